@@ -9,7 +9,8 @@ from vlib.model.lineparse import parse_line, parse_params_text, unfold, LineSynt
 
 from icalendar import Event
 from icalendar.parser import Parameters, Contentline
-from icalendar.prop import vText
+from icalendar.prop import vText, vCalAddress, vBinary
+from datetime import date, datetime, timedelta, timezone
 
 ID = "C08"
 TECHNIQUE = "exhaustive sweep of parameter values over the delimiter alphabet (<=4 symbols) + Hypothesis parameter maps; round-trip oracle + independent RFC 5545 parameter tokenizer on the emitted text"
@@ -101,10 +102,20 @@ def judge(case):
                 fails.append(Failure("C08.quoting", "emitted-line-not-rfc-grammar", f"{line!r}: {e}"[:300]))
             name, params, value = Contentline.from_ical(cl.to_ical()).parts()
             got = as_plain(params)
+            if case.get("between"):
+                # history: another content line - a strict one, as used to validate a single line - is constructed between the
+                # construction of this line and its parsing; each line is parsed by its own rules
+                Contentline("X-OTHER;Cn=q;x-l=a,B:v", strict=case["between"] == "strict")
+                direct = as_plain(cl.parts()[1])
+                Contentline("X-OTHER:v")
+                if direct != got:
+                    fails.append(Failure("C08.roundtrip-line", "line-parts-depend-on-a-line-constructed-in-between", f"pm={pm!r} direct={direct!r} fresh={got!r}"[:400]))
             pobj = params
             again = lambda: Contentline.from_ical(cl.to_ical()).parts()[1]
             if name != "X-PROP" or value != "v":
                 fails.append(Failure("C08.roundtrip-line", "line-name-or-value-differs", f"{line!r} -> {name!r} {value!r}"[:300]))
+        elif case.get("prop"):
+            return fails + judge_typed(case, pm, exp)
         else:
             ev = Event()
             ev.add("x-prop", "v", parameters={name: v for name, v in pm})
@@ -161,6 +172,67 @@ def judge(case):
     return fails
 
 
+TYPED = {
+    # property name, a second name of the same value type, value builder
+    "rdate-utc-list": ("RDATE", "EXDATE", lambda: [datetime(2025, 6, 1, 8, 0, tzinfo=timezone.utc), datetime(2025, 6, 2, 8, 0, tzinfo=timezone.utc)]),
+    "exdate-floating-list": ("EXDATE", "RDATE", lambda: [datetime(2025, 6, 1, 8, 0), datetime(2025, 6, 2, 8, 0)]),
+    "rdate-date-list": ("RDATE", "EXDATE", lambda: [date(2025, 6, 1), date(2025, 6, 2)]),
+    "exdate-zoned": ("EXDATE", "RDATE", lambda: [datetime(2025, 6, 1, 8, 0, tzinfo=__import__("zoneinfo").ZoneInfo("Europe/Berlin"))]),
+    "dtstart-utc": ("DTSTART", "DTEND", lambda: datetime(2025, 6, 1, 8, 0, tzinfo=timezone.utc)),
+    "dtstart-date": ("DTSTART", "DTEND", lambda: date(2025, 6, 1)),
+    "attendee": ("ATTENDEE", "ORGANIZER", lambda: vCalAddress("mailto:a@example.com")),
+    "categories": ("CATEGORIES", "RESOURCES", lambda: ["a", "b"]),
+    "duration": ("DURATION", "X-DUR", lambda: timedelta(hours=1)),
+    "freebusy": ("FREEBUSY", "X-FB", lambda: (datetime(2025, 6, 1, 8, 0, tzinfo=timezone.utc), timedelta(hours=1))),
+    "rrule": ("RRULE", "EXRULE", lambda: {"FREQ": "DAILY", "COUNT": 3}),
+    "geo": ("GEO", "X-GEO", lambda: (1.5, 2.5)),
+    "sequence": ("SEQUENCE", "PRIORITY", lambda: 3),
+    "attach-binary": ("ATTACH", "X-ATT", lambda: vBinary("payload")),
+}
+DERIVED = ("VALUE", "TZID", "ENCODING")
+
+
+def judge_typed(case, pm, exp):
+    """component path with the typed values of RFC properties: the supplied parameters come back on that property - and on no other
+    (neither a second property of the same value type in the same component, nor the same property of a component built later)"""
+    fails = []
+    name, name2, mk = TYPED[case["prop"]]
+
+    def plain(v_):
+        return {k: v for k, v in as_plain(getattr(v_, "params", {})).items() if k not in DERIVED}
+    ev = Event()
+    if case.get("neighbour_first"):
+        ev.add(name2, mk())
+    ev.add(name, mk(), parameters={n_: v for n_, v in pm})
+    if not case.get("neighbour_first"):
+        ev.add(name2, mk())
+    later = Event()
+    later.add(name, mk())
+    raw, raw_later = ev.to_ical(), later.to_ical()
+    back, back_later = Event.from_ical(raw), Event.from_ical(raw_later)
+    v = back.get(name)
+    if v is None or isinstance(v, list):
+        return [Failure("C08.roundtrip-component", "property-lost-or-duplicated", f"{name} pm={pm!r} errors={back.errors!r} got={v!r}"[:400])]
+    got = plain(v)
+    if got != exp:
+        fails.append(Failure("C08.roundtrip-component", "component-values-differ/" + case["prop"], f"{name} pm={pm!r} got={got!r}"[:400]))
+    for what, other in (("second-property-of-the-same-type", back.get(name2)), ("same-property-of-a-later-component", back_later.get(name))):
+        if other is None or any(plain(o_) for o_ in (other if isinstance(other, list) else [other])):
+            fails.append(Failure("C08.roundtrip-component", "parameters-appear-on-another-property/" + what, f"{case['prop']} pm={pm!r}: {other!r} params={getattr(other, 'params', None)!r}"[:400]))
+    lines = [ln for ln in unfold(raw) if ln.upper().startswith(name + ";") or ln.upper().startswith(name + ":")]
+    if len(lines) == 1:
+        try:
+            _, toks, _val = parse_line(lines[0])
+            ref = {k: v for k, v in ref_map(toks).items() if k not in DERIVED}
+            if ref != exp:
+                fails.append(Failure("C08.quoting", "reference-parser-splits-differently", f"line={lines[0]!r} ref={ref!r} exp={exp!r}"[:400]))
+        except LineSyntaxError as e:
+            fails.append(Failure("C08.quoting", "emitted-line-not-rfc-grammar", f"{lines[0]!r}: {e}"[:300]))
+    else:
+        fails.append(Failure("C08.quoting", "emitted-property-line-missing", repr(raw)[:300]))
+    return fails
+
+
 def _values(case):
     for _, v in case["params"]:
         if isinstance(v, list):
@@ -172,6 +244,10 @@ def _values(case):
 def info(case):
     vals = list(_values(case))
     classes = ["path:" + case["path"]]
+    if case.get("prop") and case["path"] == "component":
+        classes.append("typed-property:" + case["prop"])
+    if case.get("between") and case["path"] == "line":
+        classes.append("history:line-constructed-in-between/" + case["between"])
     nt = False
     if any(re.search(r"[,;:]", v) for v in vals):
         classes.append("needs-quotes")
@@ -223,7 +299,9 @@ def pmaps(draw):
             pm.append([nm, draw(st.lists(pvalue, min_size=1, max_size=4))])
         else:
             pm.append([nm, draw(pvalue)])
-    return {"path": draw(st.sampled_from(["params", "line", "component"])), "params": pm, "sorted": draw(st.booleans())}
+    return {"path": draw(st.sampled_from(["params", "line", "component", "component"])), "params": pm, "sorted": draw(st.booleans()),
+            "prop": draw(st.one_of(st.none(), st.sampled_from(sorted(TYPED)))), "neighbour_first": draw(st.booleans()),
+            "between": draw(st.sampled_from([None, "strict", "strict", "lenient"]))}
 
 
 def _sweep(i):
